@@ -499,7 +499,7 @@ def _cfg_pg(tier, seed):
     q = [{"shape": (2, 2), "proj": ("2", "3")}, {"shape": (2, 3), "proj": ("1/2", "5"), "oracle_free": 2}, {"shape": (2, 3), "proj": ("3", "2"), "oracle_free": 1, "transposed": True}, {"shape": (2, 3), "proj": ("2", "3"), "oracle_free": 0, "region_arg": True}, {"shape": (2, 2), "proj": ("2", "3"), "oracle_free": 0, "region_arg": True, "shape_arg": (3, 2)}]
     if tier == "quick":
         return q
-    return q + [{"shape": (2, 3), "proj": ("1/2", "5"), "name": None}, {"shape": (2, 3), "proj": ("2", "3"), "hole": (0, 1)}, {"shape": (3, 3), "proj": ("7", "1/3")}]
+    return q + [{"shape": (2, 3), "proj": ("1/2", "5"), "name": None}, {"shape": (2, 3), "proj": ("2", "3"), "hole": (0, 1)}, {"shape": (3, 3), "proj": ("7", "1/3"), "oracle_free": 2}]
 
 
 HARNESSES = [
